@@ -20,9 +20,12 @@ from vlib.runner import Sub, Verdict, fail
 PROPERTY_ID = 'C10'
 LEVEL = 'exploration'
 RULE = ('a case = a test case that starts the probe program: [act] through each actor (command line with % / '
-        'executable file / -python / $ / @ SYMBOL, file interpreter, source interpreter, null), run / $ / % in '
-        '[setup] [before-assert] [assert] [cleanup], programs as text sources (-stdout-from / -stderr-from), '
-        '-from of exit-code / stdout / stderr, run transformers; generated: argument lists (fragments naked / soft / '
+        'executable file / -python / $ / @ SYMBOL, file interpreter, source interpreter - configured in [conf], in '
+        'exactly.suite or by --actor -, null), run / $ / % in [setup] [before-assert] [assert] [cleanup] (program '
+        'symbols defined in [setup] or in the phase of use), programs as text sources (-stdout-from / -stderr-from as '
+        'stdin and as contents of `file PATH = ...`), -from of exit-code / stdout / stderr, run transformers; shell '
+        'command lines with quoting, command substitution and shell syntax around the command (&&, ;, #, VAR=x); '
+        'generated: argument lists (fragments naked / soft / '
         'hard quoted, empty, blanks, quotes, option-like and reserved words, references to string / list / path '
         'symbols, -existing-*, :> and here-document last arguments, line continuation), stdin from every text-source '
         'kind via `stdin =` and `-stdin`, chains of def program (depth <= 3) adding arguments / stdin / '
@@ -49,6 +52,11 @@ ASSUMPTIONS = [
     'the source file of the source interpreter actor: contents = the [act] lines joined by new-line, with or without '
     'a final new-line; `\\[` and `\\\\` at line start translated as `help act` says',
     'texts contain no carriage return and no NUL; strings contain no new-line (here-documents and files do)',
+    'a continuation line of an argument list never starts with "#" (it could be read as a comment line)',
+    'KF-C10-1 (defect model): when the stdin of a process consists of several parts and a part is the output of a '
+    'program, that output may appear earlier than it should (anywhere inside / before the text that precedes it); '
+    'everything else - order of all other text, mutual order of program outputs, nothing lost or duplicated - must '
+    'hold; any other deviation is a violation',
 ]
 
 KF1 = 'KF-C10-1'
@@ -58,7 +66,7 @@ KF1 = 'KF-C10-1'
 def _materialise(ws, c, text, files):
     ws.write('t.case', text)
     for name, content in files.items():
-        ws.write(name, content, subst=False)
+        ws.write(name, content, subst=(name == 'exactly.suite'))
     for name, content in (('data/f1.txt', 'f1\n'), ('data/f2.txt', 'f2\n'), (render.SRC_NAME, 'source text\n')):
         if name not in files:
             ws.write(name, content, subst=False)
@@ -110,7 +118,7 @@ def _labels(c, exp):
     def program_labels(p, host):
         base, layers = m.flatten(p)
         labels.append('head:%s:%s' % (host, base['head']['k'] + (':' + base['head'].get('variant', '')
-                                                                  if base['head']['k'] == 'exe' else '')))
+                                                                  if base['head']['k'] in ('exe', 'sys') else '')))
         labels.append('chain-depth:%d' % (len(layers) - 1))
         for l in layers:
             for a in l.get('args', []):
@@ -154,14 +162,17 @@ def _labels(c, exp):
     else:
         labels.append('actor:%s:%s' % (act['k'], act['variant']))
         labels.append('interpreter:%s' % act.get('interp'))
+        labels.append('actor-configured-via:%s' % act.get('via', 'conf'))
     if c.get('setup_stdin'):
         ts_labels(c['setup_stdin'], 'stdin=')
     for ph in model.PHASES:
         for ins in c.get('phases', {}).get(ph, []):
             labels.append('instr:%s:%s%s' % (ph, ins['k'] + (':' + ins['what'] if ins['k'] == 'from' else ''),
                                              ':ignore-exit-code' if ins.get('ignore') else ''))
-            if ins['k'] in ('run', 'from'):
+            if ins['k'] in ('run', 'from', 'filefrom'):
                 program_labels(ins['p'], ins['k'])
+            if ins.get('local_defs'):
+                labels.append('def-program-in:' + ph)
     for e in exp['inv']:
         for f in _argv_features(e['argv'][0]):
             feats.add('argv:' + f)
@@ -176,6 +187,25 @@ def _labels(c, exp):
             labels.append('stdout:big')
     for cl in c.get('claims', []):
         labels.append('claim:%s:%s' % (cl['what'], 'true' if cl.get('mut') is None else 'near-miss'))
+
+    def shell_labels(o):
+        if isinstance(o, dict):
+            if 'words' in o and 'seps' in o:
+                if o.get('pre'):
+                    feats.add('shell:before-command:' + o['pre'].strip())
+                if o.get('post'):
+                    feats.add('shell:after-command:' + o['post'].strip())
+                for w in o['words']:
+                    for sty, _ in w:
+                        feats.add('shell:segment:' + {'u': 'unquoted', 's': 'single-quoted', 'd': 'double-quoted',
+                                                      'c': 'command-substitution'}[sty])
+            for v in o.values():
+                shell_labels(v)
+        elif isinstance(o, list):
+            for v in o:
+                shell_labels(v)
+
+    shell_labels(c)
     labels.extend(sorted(feats))
     labels.append('expected:%s' % ('unspecified' if exp['verdict'] is None else '|'.join(sorted(exp['verdict']))))
     nontrivial = bool(feats & {'argv:empty', 'argv:blank', 'argv:quote', 'argv:option-like', 'argv:reserved-word',
@@ -191,7 +221,7 @@ def _self_check_shell(c):
     problems = []
 
     def check_sh(sh):
-        line = render.r_shell(sh)
+        line = render.r_shell(sh, plain_c=True)
         by_construction = m.shell_words(sh, substitute=False)
         if shlex.split(line) != by_construction:
             problems.append([line, by_construction])
@@ -220,7 +250,7 @@ def check(case) -> Verdict:
 
     with driver.Workspace() as ws:
         _materialise(ws, c, text, files)
-        r = driver.run_inproc(ws, ['--keep', 't.case'])
+        r = driver.run_inproc(ws, [ws.subst(a) for a in render.r_cli_args(c)] + ['--keep', 't.case'])
         records = {pid: ws.probe_records(pid) for pid in c['probes']}
         sandbox = None
         if r.out.endswith('\n') and r.out.count('\n') == 1 and os.path.isdir(r.out[:-1]):
@@ -229,6 +259,10 @@ def check(case) -> Verdict:
         if sandbox:
             result_files = {n: _read(os.path.join(sandbox, 'result', fn))
                             for n, fn in (('exit', 'exit-code'), ('stdout', 'stdout'), ('stderr', 'stderr'))}
+        out_files = {}
+        if sandbox:
+            for path in model.expectations_at(c, ws.home, sandbox)['out_files']:
+                out_files[path] = _read(path)
         source_files = {}
         for pid, recs in records.items():
             for rec in recs:
@@ -356,6 +390,13 @@ def check(case) -> Verdict:
         if content is None or content not in wants:
             return bad('source-interpreter/source-file-contents', expected=sorted(wants), observed_contents=content)
 
+    # ---- files made from the output of programs --------------------------------------------------------
+    if exp['verdict'] is not None:
+        for path, want in sorted(exp['out_files'].items()):
+            if out_files.get(path) != want:
+                return bad('file-from-program-output', path=unroot(path), expected=short(want),
+                           observed_contents=None if out_files.get(path) is None else short(out_files[path]))
+
     # ---- the stored outcome ------------------------------------------------------------------------------
     if exp['act'] is not None and act and act['k'] != 'null' and exp['verdict'] is not None:
         want = {'exit': str(exp['act']['exit']), 'stdout': exp['act']['stdout'], 'stderr': exp['act']['stderr']}
@@ -407,7 +448,7 @@ def _host_of(c, pid):
         for ins in c.get('phases', {}).get(ph, []):
             if ins.get('probe') == pid:
                 return '%s:%s' % (ph, ins['k'])
-            if ins['k'] in ('run', 'from') and in_program(ins['p']):
+            if ins['k'] in ('run', 'from', 'filefrom') and in_program(ins['p']):
                 if top(ins['p']):
                     return '%s:%s:%s' % (ph, ins['k'], m.flatten(ins['p'])[0]['head']['k'])
                 return '%s:%s:inner-program' % (ph, ins['k'])
